@@ -81,4 +81,22 @@ BOUNDS = {
         "thorough": "chars < U+1000; strings of 1..2 runes < U+0250; ints |i| < 10^9.",
         "assumptions": ["decimal printing of symbolic ints uses the engine's digit model", "outside: floats (strconv.FormatFloat/ParseFloat on symbolic values is not encodable), hashes through eval, symbols with unusual names, runes above the bound (the full range did not finish in 25 minutes)"],
     },
+    "C11": {
+        "quick": "9 shapes; strings 'a'+r+'z' with r symbolic below U+0250; ints |i|<10^5.",
+        "thorough": "r below U+3000.",
+        "assumptions": ["the decoder (ugorji codec: reflection/unsafe) is not encodable: the harness's RFC 8259 reader stands in for 'a standard decoder'; msgpack and floats are outside"],
+    },
+    "C17": {
+        "all": "one declaration (string, int64, float64, bool fields); 4 fields x 6 kinds x 4 routes; 19 programs. Outside: pointer writes, slices/pointer/struct-typed fields, JSON/msgpack decoding into records, variable rebinding (not a write to an instance).",
+        "assumptions": ["int written into a float64 field is excluded (conversion rule not stated)"],
+    },
+    "C18": {
+        "quick": "first rune below U+0250 (excluding space, '.', controls); depth 1..2; kinds value/function/hash/package; routes get/set.",
+        "thorough": "first rune below U+3000.",
+        "assumptions": ["nothing is asserted for names starting with a non-letter", "outside: depth 3, aliases at walker level (covered only by the scripted programs), infix assignment route with symbolic names"],
+    },
+    "C20": {
+        "all": "maps of at most 3 entries are permuted (larger maps keep insertion order); 3 scenarios. Outside: registry scans (reflection), fresh processes, pointer printing, maps larger than the bound.",
+        "assumptions": ["the engine's maps are insertion-ordered association lists; 'every order' means every permutation of the live entries at range time"],
+    },
 }
